@@ -2,7 +2,7 @@ package main
 
 // C20: tsp.LIB on a writer that follows a fault plan (fault enumeration).
 // For every n and weight function: one fault-free run to learn the number of Write calls W, then
-// every position 1..W+1 x {fail, short} x {transient, permanent}.  Each run is one trace segment
+// every position 1..W+1 x {fail, short, full} x {transient, permanent}.  Each run is one trace segment
 // for TspLibTrace.tla.
 
 import (
@@ -61,10 +61,14 @@ func (pw *planWriter) Write(b []byte) (int, error) {
 	n, err := len(b), error(nil)
 	if faulty {
 		err = errPlanned
-		if pw.p.Kind == "fail" {
+		switch pw.p.Kind {
+		case "fail":
 			n = 0
-		} else {
+		case "short":
 			n = len(b) / 2
+		case "full": // the error comes together with a full count
+		default:
+			panic("unknown fault kind " + pw.p.Kind)
 		}
 	}
 	pw.acc = append(pw.acc, b[:n]...)
@@ -143,7 +147,7 @@ func tspRun(c *Ctx, upto int, each func(i int, e tspEntry) int) (plans, weightSe
 			do(base, true)
 			plans++
 			for at := 1; at <= W+1; at++ {
-				for _, kind := range []string{"fail", "short"} {
+				for _, kind := range []string{"fail", "short", "full"} {
 					for _, perm := range []bool{false, true} {
 						do(tspPlan{N: n, W: wn, At: at, Kind: kind, Perm: perm}, true)
 						plans++
@@ -177,7 +181,7 @@ func tspRun(c *Ctx, upto int, each func(i int, e tspEntry) int) (plans, weightSe
 			if over() {
 				return
 			}
-			do(tspPlan{N: n, W: wn, At: at, Kind: []string{"fail", "short"}[at%2], Perm: false}, true)
+			do(tspPlan{N: n, W: wn, At: at, Kind: []string{"fail", "short", "full"}[at%3], Perm: false}, true)
 			plans++
 			weightSection++
 		}
